@@ -1,0 +1,15 @@
+//go:build verif
+
+package wal
+
+import (
+	"github.com/alphadose/haxmap"
+	"github.com/projecteru2/core/wal/kv"
+)
+
+// VerifNewHydroWithKV builds a Hydro on a caller-supplied KV (verification harness only, build tag
+// verif): the harness decorates the real bbolt KV to inject crash points between the KV operations
+// of one Log / Recover.
+func VerifNewHydroWithKV(store kv.KV) *Hydro {
+	return &Hydro{Map: haxmap.New[string, EventHandler](), store: store}
+}
